@@ -218,7 +218,15 @@ def run_impl(sub, outdir, seed, n, replay=None, mode=None, timeout=None, extra=N
         cmd += extra
     rc, out = sh(cmd, timeout=timeout, env=GOENV)
     if rc != 0:
-        raise RuntimeError("implrun %s failed (%d): %s" % (sub, rc, out[-3000:]))
+        err = RuntimeError("implrun %s failed (%d): %s" % (sub, rc, out[-3000:]))
+        # a Go-level crash while a case was running: that case is the failing input
+        err.crash_case = None
+        if re.search(r"^(panic:|fatal error:)", out, flags=re.M):
+            try:
+                err.crash_case = open(os.path.join(outdir, "running.json")).read()
+            except Exception:
+                pass
+        raise err
     return json.load(open(os.path.join(outdir, "stats.json")))
 
 
